@@ -61,8 +61,9 @@ def main():
                     os.makedirs(od, exist_ok=True)
                     shutil.copy(os.path.join(d, pf), os.path.join(od, 'patch.diff'))
                     shutil.copy(demo, os.path.join(od, os.path.basename(demo)))
-                    if os.path.exists(os.path.join(d, 'notes.md')):
-                        shutil.copy(os.path.join(d, 'notes.md'), os.path.join(od, 'notes_from_author.md'))
+                    nn = 'notes_r2.md' if x in 'rst' and os.path.exists(os.path.join(d, 'notes_r2.md')) else 'notes.md'
+                    if os.path.exists(os.path.join(d, nn)):
+                        shutil.copy(os.path.join(d, nn), os.path.join(od, 'notes_from_author.md'))
                     mp = os.path.join(od, 'meta.json')
                     old = json.load(open(mp)) if os.path.exists(mp) else {}
                     old.update(meta)
@@ -103,7 +104,7 @@ def main():
                     ok = rc0 == 0 and f0 == 0 and p0 > 0 and rc1 != 0 and f1 > 0 and rc2 == 0 and f2 == 0
                     meta['confirmed'] = ok
                     print(sid, 'CONFIRMED' if ok else 'NOT CONFIRMED', meta['demo_without_patch'], meta['demo_with_patch'], meta['suite_with_patch'])
-                notes = os.path.join(d, 'notes.md')
+                notes = os.path.join(d, 'notes_r2.md' if x in 'rst' and os.path.exists(os.path.join(d, 'notes_r2.md')) else 'notes.md')
                 od = os.path.join(OUT, sid)
                 os.makedirs(od, exist_ok=True)
                 shutil.copy(os.path.join(d, pf), os.path.join(od, 'patch.diff'))
